@@ -63,6 +63,8 @@ struct Track {
     exists: bool,
     history: Vec<(u64, St)>,
     first_pending_round: Option<u64>,
+    /// the round of the user's first call for this hash (requests arrive staggered in some modes)
+    start_round: u64,
 }
 
 struct Mon<'a> {
@@ -74,6 +76,9 @@ struct Mon<'a> {
     bad_mode: u64,
     rng: Rng,
     invalid_answers: u64,
+    /// mode "late-answer": every peer answers proof requests only after `late` rounds (well inside the message timeout)
+    late: Option<u64>,
+    held: Vec<(u64, usize, Vec<Resp>)>,
 }
 
 impl<'a> Hook for Mon<'a> {
@@ -137,7 +142,11 @@ impl<'a> Hook for Mon<'a> {
                 _ => {}
             }
         }
-        let _ = &self.rng;
+        if let Some(d) = self.late {
+            let due = w.round_no + 1 + self.rng.range(1, d);
+            self.held.push((due, pi, honest));
+            return vec![];
+        }
         honest
     }
     fn after_deliver(&mut self, _w: &mut World, _pi: usize, _m: &Resp, _o: &Outcome) {
@@ -196,7 +205,7 @@ fn scenario_same_height(seed: u64, k: u64, out: &Out) {
     w.add_peer(0, true);
     let how = *rng.pick(&["fetch_header", "fetch_transaction", "script-indexing"]);
     let desc = json!({"seed": seed, "scenario": k, "len": len, "mode": "same-height-after-fork", "second_block_stored_by": how, "last_n": ccfg.last_n});
-    let mut mon = Mon { out, reported_missing: HashSet::new(), bad_peer: None, bad_mode: 9, rng: rng.fork(3), invalid_answers: 0 };
+    let mut mon = Mon { out, reported_missing: HashSet::new(), bad_peer: None, bad_mode: 9, rng: rng.fork(3), invalid_answers: 0, late: None, held: vec![] };
     w.connect_all();
     if w.run_until(&mut mon, 40, |w| w.tip_hash() == w.chains[0].tip_hash()).is_none() {
         out.count("setup_not_converged", 1);
@@ -353,9 +362,9 @@ fn scenario(seed: u64, k: u64, out: &Out) {
         let regs = pick_scripts(&mut rng, &w.chains[0], 2, len);
         set_scripts(&w, &regs, None);
     }
-    let mode = *rng.pick(&["honest", "honest", "invalid-answer", "mute-then-timeout", "disconnect-before-answer", "new-tip-only-answer"]);
+    let mode = *rng.pick(&["honest", "honest", "invalid-answer", "mute-then-timeout", "disconnect-before-answer", "new-tip-only-answer", "late-answer", "late-answer"]);
     let desc = json!({"seed": seed, "scenario": k, "len": len, "peers": npeers, "mode": mode, "scripts": with_scripts, "last_n": ccfg.last_n, "fast_timers": w.timer_fast});
-    let mut mon = Mon { out, reported_missing: HashSet::new(), bad_peer: None, bad_mode: 9, rng: rng.fork(3), invalid_answers: 0 };
+    let mut mon = Mon { out, reported_missing: HashSet::new(), bad_peer: None, bad_mode: 9, rng: rng.fork(3), invalid_answers: 0, late: None, held: vec![] };
     w.connect_all();
     if w.run_until(&mut mon, 40, |w| w.tip_hash() == w.chains[0].tip_hash()).is_none() {
         out.count("setup_not_converged", 1);
@@ -380,7 +389,9 @@ fn scenario(seed: u64, k: u64, out: &Out) {
         if tracks.iter().any(|t| t.hash == hash) {
             continue;
         }
-        tracks.push(Track { is_tx, hash, exists, history: vec![], first_pending_round: None });
+        // in the late-answer mode further requests arrive while earlier proof requests are still unanswered
+        let start_round = if mode == "late-answer" && !tracks.is_empty() { rng.range(1, 9) } else { 0 };
+        tracks.push(Track { is_tx, hash, exists, history: vec![], first_pending_round: None, start_round });
     }
     match mode {
         "invalid-answer" => {
@@ -395,6 +406,7 @@ fn scenario(seed: u64, k: u64, out: &Out) {
             mon.bad_peer = Some(0);
             mon.bad_mode = 2;
         }
+        "late-answer" => mon.late = Some(rng.range(2, 7)),
         _ => {}
     }
     let mut violated = false;
@@ -421,8 +433,26 @@ fn scenario(seed: u64, k: u64, out: &Out) {
         if round % 7 == 6 {
             w.connect_all();
         }
+        // late answers whose time has come
+        if !mon.held.is_empty() {
+            let now_r = w.round_no;
+            let (due, rest): (Vec<_>, Vec<_>) = std::mem::take(&mut mon.held).into_iter().partition(|(r, _, _)| *r <= now_r + 1);
+            mon.held = rest;
+            for (_, pi, resps) in due {
+                if pi < w.peers.len() && w.peers[pi].connected {
+                    w.peers[pi].inbox.extend(resps);
+                }
+            }
+        }
+        // the slow peers become prompt again, so that bounded progress is judged against a responsive network
+        if mode == "late-answer" && round == 25 {
+            mon.late = None;
+        }
         // poll statuses (every call is also the user's retry after not_found)
         for ti in 0..tracks.len() {
+            if round < tracks[ti].start_round {
+                continue;
+            }
             if round % 2 == 1 && rng.chance(1, 2) {
                 continue;
             }
